@@ -278,7 +278,7 @@ def run(ctx):
         alg = ctx.rng.choice(enet.ALGS)
         o1, txt1 = enet.run_all(ctx, bdir, net, "c07_%d_base" % t, algs=[alg])
         if not enet.adjusted_ok(o1[alg]):
-            ctx.hist("skipped_base_not_adjusted", 1)
+            ctx.skipped("skipped_base_not_adjusted", {"gkf": txt1})
             continue
         if t == 0:
             ctx.sample({"network": enet.summarize(net), "transformations": [n_ for n_, _ in TRANSFORMS]})
